@@ -27,6 +27,18 @@ func runOne(t *testing.T, c *Case, work, sched *choice.Source, out *wproto.Out, 
 			out.Finding(id, f.Sig, "mismatch", f.Msg, c)
 		}
 	}
+	faces, wsigs := st.Faces, sigs
+	if c.Algo == "dcrepair" {
+		// known finding: the repaired face set is map-order dependent, so the
+		// repeat-run mismatch itself comes and goes
+		faces, wsigs = -1, nil
+		for _, s := range sigs {
+			if s != "dc|repair-repeat" {
+				wsigs = append(wsigs, s)
+			}
+		}
+	}
+	out.Trace(id, st.MapDep, []any{st.TraceHashes, st.Steps, st.Preempt, st.Calls, st.Tasks}, []any{wsigs, faces, st.Workers, st.Desc, st.Discarded})
 	out.End(id, sigs)
 	out.Count("evaluations", 1)
 	out.Count("algo."+c.Algo, 1)
